@@ -578,8 +578,13 @@ theorem C13_pytree_nested_sound (E : Env α δ) :
     (∀ (s : PT Unit) (l : List α) (t : PT α) (r : List α),
       unflat E s l = .ok (t, r) → t.struct = s ∧ t.leaves ++ r = l) ∧
     (∀ (f : α → α) (t t' : PT α), treeMap E f t = .ok t' →
-      t'.struct = t.struct ∧ t'.leaves = t.leaves.map f) :=
-  ⟨unflat_sound E, treeMap_sound E⟩
+      t'.struct = t.struct ∧ t'.leaves = t.leaves.map f) ∧
+    -- the registered node function on rebuilt children (leaves, or pytrees themselves: nested block
+    -- arrays, tuples): it never changes them, and rejects only arrays of different dtypes
+    (∀ (ts : List (PT α)) (t : PT α), unflattenNode E ts = .ok t → t = .blk ts) ∧
+    (∀ (ts : List (PT α)) (e : Err), unflattenNode E ts = .error e →
+      e = .dtype ∧ ts.all (childArr E) = true ∧ ¬ Homog E (leafVals ts)) :=
+  ⟨unflat_sound E, treeMap_sound E, fun _ _ h => unflattenNode_eq E h, fun _ _ h => unflattenNode_error E h⟩
 
 /-- before d088c11 every leaf went through the constructor: a leaf that `jnp.array` rejects made
     `unflatten` raise (finding `blockarray-pytree-placeholder-leaves`, repaired) -/
@@ -768,6 +773,45 @@ theorem C13_dtype_property (E : Env α δ) (hAs : ∀ x y, E.asArr x = .ok y →
     have : pyIndex 1 0 = some 0 := by decide
     simp [setItem, this, mkBlock_wf E hwf]
 
+/-- `x[start:stop:step] = values` is Python list slice assignment followed by the constructor:
+    whatever is accepted is a well-formed block array (one dtype); a simple slice (step omitted or 1)
+    is replaced by ANY number of values — `x[:lo] ++ values ++ x[hi:]`, the number of blocks changes —
+    while an extended slice takes exactly as many values as it has indices, and a zero step is a
+    ValueError -/
+theorem C13_setslice (E : Env α δ) (hAs : ∀ x y, E.asArr x = .ok y → E.isArr y = true)
+    (self values : List α) (start stop step : Option Int) :
+    (∀ r, setSlice E self start stop step values = .ok r → WF E r) ∧
+    (∀ a b, sliceBounds self.length start stop step = some (a, b, 1) →
+      WF E (self.take a.toNat ++ values ++ self.drop (max a b).toNat) →
+      setSlice E self start stop step values
+        = .ok (self.take a.toNat ++ values ++ self.drop (max a b).toNat)) ∧
+    (∀ a b st, sliceBounds self.length start stop step = some (a, b, st) → st ≠ 1 →
+      values.length ≠ sliceLen a b st → setSlice E self start stop step values = .error .shape) ∧
+    (step = some 0 → setSlice E self start stop step values = .error .value) := by
+  refine ⟨?_, ?_, ?_, ?_⟩
+  · intro r h
+    unfold setSlice at h
+    cases hb : sliceBounds self.length start stop step with
+    | none => simp [hb] at h
+    | some p =>
+      obtain ⟨a, b, st⟩ := p
+      simp only [hb] at h
+      by_cases h1 : st = 1
+      · simp only [h1, if_true] at h
+        exact mkFrom_wf E hAs h
+      · simp only [h1, if_false] at h
+        by_cases h2 : values.length ≠ sliceLen a b st
+        · simp [h2] at h
+        · simp only [h2, if_false] at h
+          exact mkFrom_wf E hAs h
+  · intro a b hb hwf
+    simp only [setSlice, hb, if_true]
+    exact mkBlock_wf E hwf
+  · intro a b st hb h1 h2
+    simp [setSlice, hb, h1, h2]
+  · rintro rfl
+    simp [setSlice, sliceBounds]
+
 /-- before d088c11 the value was stored as it is and the invariant could be broken
     (finding `blockarray-setitem-unchecked`, repaired): blocks = numbers, dtype = parity -/
 theorem C13_setitem_old_witness :
@@ -892,6 +936,10 @@ example : getSlice exEnv [[1], [2], [3], [4]] none none (some (-1)) = .ok [[4], 
 example : getSlice exEnv [[1], [2], [3], [4]] (some 1) none none = .ok [[2], [3], [4]] := by decide
 example : getSlice exEnv [[1], [2], [3], [4]] (some (-3)) (some 9) (some 2) = .ok [[2], [4]] := by decide
 example : sliceBounds 4 (some (-3)) (some 9) (some 2) = some (1, 4, 2) := by decide
+-- slice assignment: x[1:2] = three blocks (4 blocks afterwards); x[::2] = two blocks; wrong count for an extended slice
+example : setSlice exEnv [[1], [2]] (some 1) (some 2) none [[7], [8], [9]] = .ok [[1], [7], [8], [9]] := by decide
+example : setSlice exEnv [[1], [2], [3]] none none (some 2) [[7], [8]] = .ok [[7], [2], [8]] := by decide
+example : setSlice exEnv [[1], [2], [3]] none none (some 2) [[7]] = .error .shape := by decide
 -- assignment: `x[-1] = v` replaces the last block; index errors as for `x[k]`
 example : setItem exEnv [[1, 2], [3]] (-1) [9] = .ok [[1, 2], [9]] := by decide
 example : setItem exEnv [[1, 2], [3]] 2 [9] = (.error .index : Res (List (List Int))) := by decide
@@ -899,15 +947,20 @@ example : setItem exEnv [[1, 2], [3]] 2 [9] = (.error .index : Res (List (List I
 example : treeUnflatten (⟨fun x => x % 2 == 0, fun _ => .error .type, fun x => x⟩ : Env Nat Nat) () [1, 4] = .ok [1, 4] := by decide
 -- a dict {a: BlockArray([2, 4]), b: (7, BlockArray([1, 6]))} with dtype = parity, arrays = even numbers:
 -- the second block array holds a non-array leaf (a placeholder), the first one arrays of one dtype
-def exTree : PT Nat := .tup [.blk [2, 4], .tup [.leaf 7, .blk [1, 6]]]
+def exTree : PT Nat := .tup [.blk [.leaf 2, .leaf 4], .tup [.leaf 7, .blk [.leaf 1, .leaf 6]]]
 def exEnvP : Env Nat Nat := ⟨fun x => x % 2 == 0, fun _ => .error .type, fun x => x % 2⟩
 example : exTree.leaves = [2, 4, 7, 1, 6] := by decide
 example : unflat exEnvP exTree.struct [2, 4, 7, 1, 6] = .ok (exTree, []) := by rfl
 example : exTree.Ok exEnvP := by
-  refine ⟨Or.inr ⟨by decide, ?_⟩, ⟨trivial, Or.inl (by decide), trivial⟩, trivial⟩
+  refine ⟨⟨⟨trivial, trivial, trivial⟩, Or.inr ⟨by decide, ?_⟩⟩, ⟨trivial, ⟨⟨trivial, trivial, trivial⟩, Or.inl (by decide)⟩, trivial⟩, trivial⟩
   intro a ha b hb
-  simp at ha hb
+  simp [leafVals] at ha hb
   rcases ha with rfl | rfl <;> rcases hb with rfl | rfl <;> rfl
+-- a block array of block arrays (what `jax.hessian` returns): the outer node holds non-array children
+def exNested : PT Nat := .blk [.blk [.leaf 2, .leaf 4], .blk [.leaf 6]]
+example : unflat exEnvP exNested.struct [2, 4, 6] = .ok (exNested, []) := by rfl
+-- with every number an array and dtype = parity, the inner block [2, 3] mixes dtypes
+example : unflat (⟨fun _ => true, Except.ok, fun x => x % 2⟩ : Env Nat Nat) exNested.struct [2, 3, 6] = .error .dtype := by rfl
 -- scico.random: universe = Nat, keys = seeds = Nat, `PRNGKey s = 100 + s`, `split(k)[0] = 2 k`,
 -- a draw with key `k` and shape tree `t` gives `k + t.prod`
 def exPrims : RngPrims Nat Nat Unit :=
